@@ -15,6 +15,7 @@ pub mod c10;
 pub mod zone;
 pub mod tzdb;
 pub mod c19;
+pub mod c20;
 
 pub fn generate(suite: &str, tier: &str, seed: u64) -> Vec<String> {
     let mut rng = Rng::new(seed);
@@ -35,6 +36,7 @@ pub fn generate(suite: &str, tier: &str, seed: u64) -> Vec<String> {
         "c13" => zone::generate_c13(&mut rng, thorough),
         "c15" => tzdb::generate(&mut rng, thorough),
         "c19" => c19::generate(&mut rng, thorough),
+        "c20" => c20::generate(&mut rng, thorough),
         "c14" => zone::generate_c14(&mut rng, thorough),
         _ => panic!("unknown suite {suite}"),
     }
@@ -42,7 +44,7 @@ pub fn generate(suite: &str, tier: &str, seed: u64) -> Vec<String> {
 
 /// Suites whose lines are evaluated under the per-line watchdog (see guard.rs).
 pub fn guarded(suite: &str) -> bool {
-    matches!(suite, "c03" | "c15")
+    matches!(suite, "c03" | "c15" | "c20")
 }
 
 pub fn eval_more(t: &[&str]) -> String {
@@ -74,6 +76,9 @@ pub fn eval_more(t: &[&str]) -> String {
         return s;
     }
     if let Some(s) = tzdb::eval(t) {
+        return s;
+    }
+    if let Some(s) = c20::eval(t) {
         return s;
     }
     if let Some(s) = c19::eval(t) {
